@@ -220,8 +220,11 @@ pub fn finish(
         "wall_s": rep.wall_s,
         "violations": unknown.len(),
     });
-    let _ = std::fs::create_dir_all("/verif/evidence");
-    let path = format!("/verif/evidence/{}.json", prop);
+    // scripts that run the checks against a deliberately modified /repo (mutants, seeded changes)
+    // redirect the evidence so that the committed files only ever describe the real tree
+    let dir = std::env::var("VERIF_EVIDENCE_DIR").unwrap_or_else(|_| "/verif/evidence".to_string());
+    let _ = std::fs::create_dir_all(&dir);
+    let path = format!("{}/{}.json", dir, prop);
     if let Err(e) = std::fs::write(&path, serde_json::to_string_pretty(&ev).unwrap()) {
         eprintln!("machinery error: cannot write {}: {}", path, e);
         return 2;
